@@ -5,6 +5,7 @@ import (
 	"go/constant"
 	"go/token"
 	"go/types"
+	"reflect"
 	"strings"
 
 	"golang.org/x/tools/go/ssa"
@@ -415,6 +416,25 @@ func abmfRules(c *Ctx, r *Report, R1, R2, R3, R4, R5, R6 string) {
 		ok := len(echo) > 0 && mustPassBefore(f, echo, m.marshal)
 		r.check(ok, R3, key+"|echo "+fld[0], posOf(c, m.marshal), "assigned from the request on every path to Marshal",
 			"a path reaches Marshal(&answer) without "+fld[0]+" having been copied from the request (e.g. REFUND_ACCOUNT / CHECK_BALANCE / PRICE_ENQUIRY): the client cannot correlate the answer")
+		// ... and the copied value is put on the wire whatever it is: go-diameter leaves a member
+		// tagged omitempty out when it holds its zero value, and 0 is the first CC-Request-Number
+		if st := derefStruct(m.ans.Type()); st != nil {
+			for i := 0; i < st.NumFields(); i++ {
+				if st.Field(i).Name() != fld[0] {
+					continue
+				}
+				tag := reflect.StructTag(st.Tag(i)).Get("avp")
+				omit := false
+				for _, opt := range strings.Split(tag, ",")[1:] {
+					if strings.TrimSpace(opt) == "omitempty" {
+						omit = true
+					}
+				}
+				_, isPtr := st.Field(i).Type().Underlying().(*types.Pointer)
+				r.check(!omit || isPtr, R3, key+"|echo "+fld[0]+" on the wire", posOf(c, m.marshal), "the member is marshalled for every value (`"+tag+"`)",
+					"the answer's "+fld[0]+" is tagged `avp:\""+tag+"\"`: go-diameter omits the AVP when the member holds its zero value, so the answer to a request whose "+fld[0]+" is 0 / empty carries no such AVP - the identifier is not echoed")
+			}
+		}
 	}
 
 	// ---- R4 unknown account
